@@ -179,9 +179,7 @@ def history_correspondence(chk, model, recs, reps, memo_rows, tier):
     for r, ex in todo:
         groups = sorted(int(g) for g in ex)
         ev = H.random_history(chk.rng)
-        init = ";".join(f"{rg}.{3 * s + g}={H.LOGBASE[g] + ks[g]}" for (rg, s), ks in H.INITIAL.items() for g in range(3))
-        evs = "|".join(f"c:{e[1]}:{e[2]}" if e[0] == "call" else
-                       f"m:{e[1]}:{e[2]}:" + ",".join(str(H.LOGBASE[g] + e[3][g]) for g in range(3)) for e in ev)
+        init, evs = history_wire(H, ev)
         lines.append("\t".join(["c07.history", r["func"], r["variant"], ",".join(map(str, groups)),
                                 ",".join(str(ex[str(g)]) for g in groups), init, evs]))
         cases.append((r, ev))
@@ -207,9 +205,79 @@ def history_correspondence(chk, model, recs, reps, memo_rows, tier):
         obs = [lab[0] if lab else None for lab in real]
         chk.count("model:c07.history")
         chk.case(("history", r["func"], r["variant"], tuple(e[0] for e in ev)))
-        if len(model_ans) != len(obs) or any(o is None or Fraction(o) != m for o, m in zip(obs, model_ans)):
+        if len(model_ans) != len(obs) or any(o is None or abs(float(o) - float(m)) > 1e-9 for o, m in zip(obs, model_ans)):
             chk.disagree("c07.history", f"{tid} {r['case'][1:]} history {ev}: model label scales (log2) {[str(x) for x in model_ans]}, "
                                         f"real handler {obs}")
+
+
+def history_wire(H, ev):
+    init = ";".join(f"{rg}.{3 * s + g}={H.LOGBASE[g] + ks[g]}" for (rg, s), ks in H.INITIAL.items() for g in range(3))
+    evs = "|".join(f"c:{e[1]}:{e[2]}" if e[0] == "call" else
+                   f"m:{e[1]}:{e[2]}:" + ",".join(str(H.LOGBASE[g] + e[3][g]) for g in range(3)) for e in ev)
+    return init, evs
+
+
+def rule_history_correspondence(chk, model, tier):
+    """the memoised unit rules of unyt/array.py (`_unit_rule_cache`): `LabelMemo.run` / `missesOf` with the key the
+    translator read off cache hits and misses, against the ufunc each rule serves under the same random history"""
+    from fractions import Fraction
+
+    import c07_hist as H
+
+    try:
+        RR = json.load(open(os.path.join(core.BUILD, "extract_c07_rulememo.json"), encoding="utf-8"))["rows"]
+    except Exception as e:  # noqa: BLE001
+        chk.disagree("translator", f"build/extract_c07_rulememo.json unreadable: {e!r}")
+        return
+    chk.extra["rule_memo_rows"] = len(RR)
+    table = H._rule_table()
+    b = lambda v: "1" if v else "0"  # noqa: E731
+    lines, cases = [], []
+    for r in RR:
+        name = r["func"].rsplit(".", 1)[1]
+        if not (r["memo"] and r["byExpr"] and r["byScale"]):
+            chk.disagree("c07.rulememo", f"{r['func']}: the key of the memoised unit rule lacks a component the label depends on "
+                                         f"(registry object {r['byReg']}, expression {r['byExpr']}, scale {r['byScale']}): live_rule_memos_adequate fails")
+        lines.append(f"c07.memo\t{r['func']}\trule")
+        cases.append(("memo", r, None))
+        if name not in table:
+            chk.disagree("c07.rulememo", f"{r['func']}: a memoised unit rule without a ufunc in c07_hist._rule_table — a new memo must be modelled")
+            continue
+        _f, groups, expos = table[name]
+        for _ in range(4 if tier == "quick" else 16):
+            ev = H.random_history(chk.rng, 8)
+            init, evs = history_wire(H, ev)
+            lines.append("\t".join(["c07.history", r["func"], "rule", ",".join(map(str, groups)), ",".join(str(x) for x in expos), init, evs]))
+            cases.append(("hist", r, ev))
+    try:
+        ans = model.ask(lines)
+    except Exception as e:  # noqa: BLE001
+        chk.disagree("driver", repr(e))
+        return
+    for (kind, r, ev), rp in zip(cases, ans):
+        if kind == "memo":
+            want = ",".join((b(r["memo"]), b(r["byReg"]), b(r["byExpr"]), b(r["byScale"])))
+            if rp[0] != "ok" or rp[1] != want or rp[3] != str(len(RR)):
+                chk.disagree("c07.memo", f"{r['func']}: model {rp} translator {want} of {len(RR)} rules")
+            continue
+        name = r["func"].rsplit(".", 1)[1]
+        try:
+            real, misses = H.real_rule_history(name, ev)
+        except Exception as e:  # noqa: BLE001
+            chk.disagree("c07.history", f"{r['func']} history {ev}: the real ufunc raises {e!r}")
+            continue
+        chk.count("model:c07.history.rule")
+        chk.case(("rule-history", name, tuple(e[:3] for e in ev)))
+        if rp[0] != "ok" or len(rp) < 3:
+            chk.disagree("c07.history", f"{r['func']}: {rp}")
+            continue
+        model_ans = [Fraction(x) for x in rp[1].split(" ")] if rp[1] else []
+        obs = [lab[0] if lab else None for lab in real]
+        if len(model_ans) != len(obs) or any(o is None or abs(float(o) - float(m)) > 1e-9 for o, m in zip(obs, model_ans)):
+            chk.disagree("c07.history", f"{r['func']} history {ev}: model label scales (log2) {[str(x) for x in model_ans]}, real ufunc {obs}")
+        if int(rp[2]) > misses:
+            chk.disagree("c07.history", f"{r['func']} history {ev}: the model misses {rp[2]} times, the real lru_cache only {misses}: "
+                                        "the real key is coarser than the regenerated configuration says")
 
 
 # ---------------------------------------------------------------------------------------
@@ -486,6 +554,7 @@ def run(tier, seed):
             MR = []
             chk.disagree("translator", f"build/extract_c07_memo.json unreadable: {e!r}")
         history_correspondence(chk, model, recs, reps, MR, tier)
+        rule_history_correspondence(chk, model, tier)
         for r in MR:
             if r["memo"] and not (r["byExpr"] and r["byScale"]):
                 suspects.add(r["func"])
